@@ -47,6 +47,30 @@ Check C13_oracle_accepts_model : forall e sk subs confs m,
   e <> Bitfinex -> family_of e <> FNone ->
   strikes_plain subs -> msg_ok e sk m = true -> chan_plain m -> bybit_plain e m ->
   msg_prop e sk subs confs m (transform e sk (transformer_map e sk subs confs) m) = true.
+Check C13_oracle_accepts_model_bitfinex : forall sk subs confs m,
+  bfx_confs_ok confs ->
+  msg_prop Bitfinex sk subs confs m (transform Bitfinex sk (transformer_map Bitfinex sk subs confs) m) = true.
+Check C13_oracle_sound : forall c, in_domain c = true -> corr_b c = true -> prop_b c = true.
+Check eq_refl : bfx_confs_ok = fun confs =>
+  NoDup (map conf_cid confs) /\ NoDup (map conf_sid confs) /\ forall c, In c confs -> fst (fst c) = "trades".
+Check eq_refl : in_domain = fun c =>
+  (wf_case c &&
+   forallb (fun s => strike_plain_b (kind_of (snd s))) (c_subs c) &&
+   forallb (fun mo => msg_plain_b (c_exch c) (fst mo)) (c_msgs c) &&
+   confs_ok_b (c_exch c) (c_subs c) (c_confs c))%bool.
+Check C13_builder_accepts_exactly_supported : forall e k sk,
+  supports_triple e k sk = (routed_pair e sk && venue_serves e k)%bool.
+Check C13_typed_validation_accepts_served : forall e k,
+  venue_serves e k = true -> supports_kind e k = true.
+Check C13_support_oracle_sound :
+  (forall t, triple_corr t = true -> triple_prop t = true) /\
+  (forall b, batch_corr b = true -> batch_prop b = true).
+Check eq_refl : routed_pair Okx SKPublicTrades = true.
+Check eq_refl : routed_pair Okx SKOrderBooksL1 = false.
+Check eq_refl : routed_pair BinanceFuturesUsd SKLiquidations = true.
+Check eq_refl : routed_pair ExOther SKPublicTrades = false.
+Check eq_refl : venue_serves GateioOptions KSpot = false.
+Check eq_refl : supports_triple Kraken KSpot SKOrderBooksL1 = true.
 
 (* the definitions the statements rest on, spelled out / pinned by evaluation *)
 Check eq_refl : distinct_venue_symbols = fun e sk subs =>
